@@ -202,8 +202,55 @@ def rule_b(ctx):
         back = br.bb in dr.reachable_from(tgt)
         through = all(path_avoiding(dr, [tgt], [p.bb for p in push], [br.bb]) is None for _ in [0])
         okloop = back and through and any(r in dr.reachable_from(tgt) for r in recvs)
+        # .. or after doing what recv() does, spelled out in the loop body: the oldest buffered datagram is popped off
+        # self.incoming and its length comes off recv_buffered -- on every trip round the loop
+        if back and through and not okloop:
+            okloop = any(p in dr.reachable_from(tgt) and path_avoiding(dr, [tgt], [br.bb], [p]) is None for p in _inline_evictions(ctx, dr, br.bb))
     ctx.check(okloop, 'b', 'datagram_eviction_loops_until_fit', dr, dr.where(), 'while len + recv_buffered > window { recv() } precedes push_back',
               'the datagram receive buffer no longer evicts repeatedly until the new datagram fits (bounded buffering)')
+
+
+def _inline_evictions(ctx, body, head):
+    """DatagramState::recv() is `let x = self.incoming.pop_front()?.data; self.recv_buffered -= x.len(); Some(x)`: the
+    oldest buffered datagram leaves the queue and its length leaves the byte count; on an empty queue nothing happens.
+    Returns the blocks of `body` that do the same without the call: a `pop_front()` on self.incoming whose Some payload P
+    (bound by a test of the pop's own result, or taken with unwrap / expect) is followed, on every path from there to
+    the loop head `head` or to a return, by a store  self.recv_buffered = self.recv_buffered - P.data.len()  -- a store
+    of that value that is only made when something was popped.  A pop without the matching decrement (or a decrement by
+    anything else than the popped datagram's length) is not an eviction."""
+    F = ctx.facts
+    out = []
+    stores = [(w, v) for w, v in store_values(ctx, 'DatagramState', 'recv_buffered', in_fn=body) if w.body.id == body.id]
+    stops = [head] + list(body.return_blocks())
+    for p in body.calls_to('VecDeque::pop_front'):
+        if not (p.args and _is_self_field(arg_desc(F, p, 0), 'incoming')):
+            continue
+
+        def popped(x, p=p):
+            if x[0] == 'field' and x[2] == '0' and x[1][0] == 'variant' and x[1][2] == 'Some':
+                return is_site(x[1][1], p)
+            if x[0] == 'call' and _trait(x[1]) in ('Option::unwrap', 'Option::expect') and x[3]:
+                return is_site(x[3][0], p)
+            return False
+
+        def is_len(x):
+            return x[0] == 'call' and x[1] == 'Bytes::len' and len(x[3]) == 1 and x[3][0][0] == 'field' and x[3][0][2] == 'data' and popped(x[3][0][1])
+        good = [w.bb for w, v in stores if _is_diff(v, lambda a: _is_self_field(a, 'recv_buffered'), is_len)]
+        if not good:
+            continue
+        ok = False
+        tests = [br for br in branches(F, body) if br.desc[0] == 'discr' and is_site(br.desc[1], p)]
+        for br in tests:
+            t_some, t_none = br.target(1), br.target(0)
+            if t_some is None or t_some == t_none:
+                continue
+            if all(edge_dominates(body, br.bb, t_some, g) for g in good) and path_avoiding(body, [t_some], stops, good) is None:
+                ok = True
+        if not tests and all(body.dominates(p.bb, g) for g in good) and path_avoiding(body, list(body.succ[p.bb]), stops, good) is None:
+            ok = True   # pop_front().unwrap(): no None edge to speak of
+        if ok:
+            out.append(p.bb)
+    return out
 
 
 def _err_edge_skips(ctx, rule, instance, body, call, sites):
@@ -956,8 +1003,149 @@ def rule_g(ctx):
     ctx.check(okb, 'g', 'unordered_insert_consults_delivered_set/before_buffering', ai, ai.where(), 'on the Unordered edge every self.data.push is behind recvd.replace(..)', whyb)
 
 
+# --------------------------------------------------------------------------
+# a Result built in one block and tested in another: the test is correlated with the construction
+# --------------------------------------------------------------------------
+# `helper(id)?` with the helper's body spliced into the caller (engine/inline.py does that for every new private
+# function) reads in MIR:   bbA: r = Err(X); goto J     bbB: r = Ok(()); goto J     J: switch discr(Try::branch(r)) ..
+# A block-level reachability question ("can the protected call be reached without passing the guard") walks
+# bbA -> J -> Ok edge, a path no execution takes.  _err_built_blocks names the blocks like bbA so that the question can
+# leave them out: a block that BUILDS the tested Result as `Err(..)`, with no other construction of that Result between
+# it and the test, always leaves the test over its Err edge.
+
+def _tested_result_defs(body, bb):
+    """the switch ending block bb tests discr(R).  Returns [(block, variant | None)] for every statement that can have
+    produced R (followed back through plain moves / copies of whole locals and `Try::branch`, which keeps Ok -> Continue
+    and Err -> Break); variant is 'Ok' / 'Err' when the statement builds a std Result aggregate, None for anything
+    else (call results, arguments, projections ..).  None when the switch is not on the discriminant of a local."""
+    t = body.blocks[bb]['t']
+    if t[0] != 'switch' or not (isinstance(t[1], list) and t[1][0] in ('c', 'm') and not t[1][1][1]):
+        return None
+    dd = body.defs_of(t[1][1][0])
+    if len(dd) != 1 or dd[0][0] != 'stmt' or dd[0][3][0] != 'discr' or dd[0][3][1][1]:
+        return None
+    out, seen, todo = [], set(), [dd[0][3][1][0]]
+    while todo:
+        l = todo.pop()
+        if l in seen:
+            continue
+        seen.add(l)
+        for df in body.defs_of(l):
+            if df[0] == 'stmt':
+                rv = df[3]
+                if rv[0] == 'use' and isinstance(rv[1], list) and rv[1][0] in ('c', 'm') and not rv[1][1][1]:
+                    todo.append(rv[1][1][0])
+                elif rv[0] == 'agg' and rv[1][0] == 'adt' and path_matches(rv[1][1], 'result::Result') and rv[1][2] in ('Ok', 'Err'):
+                    out.append((df[1], rv[1][2]))
+                else:
+                    out.append((df[1], None))
+            elif df[0] == 'call' and df[2].is_('Try::branch') and len(df[2].args) == 1 and df[2].args[0][0] in ('c', 'm') and not df[2].args[0][1][1]:
+                todo.append(df[2].args[0][1][0])
+            elif df[0] == 'arg':
+                out.append((0, None))
+            else:
+                out.append((df[1], None))
+    return out
+
+
+def _err_built_blocks(F, body, site):
+    """blocks no execution passes on its way to block `site`: they build `Err(..)` into a Result R that is then tested
+    by a switch on discr(R) (`?`, match, if-let) whose Err edge neither reaches `site` nor comes back to the test.
+    Conditions per block d (all structural):
+      * d reaches `site` only through the test;
+      * no other producer of R lies between d and the test, or before d on a path that skips the test (R at the test
+        IS what d built, also when the moves that carry it to the test are shared with the other producers)."""
+    out = set()
+    live = body.live_blocks()
+    for br in branches(F, body):
+        if br.desc[0] != 'discr':
+            continue
+        t_ok, t_err = br.target(0), br.target(1)
+        if t_err is None or t_err == t_ok:
+            continue
+        after = body.reachable_from(t_err)
+        if br.bb in after or site in after:
+            continue
+        defs = _tested_result_defs(body, br.bb)
+        if not defs:
+            continue
+        blocks = [d for d, _ in defs]
+        for d, var in defs:
+            if var != 'Err' or d not in live or d == br.bb or blocks.count(d) != 1:
+                continue
+            fwd = body.reachable_from(d, avoid=[br.bb])
+            if site in fwd or any(o in fwd for o in blocks if o != d):
+                continue
+            if any(d in body.reachable_from(o, avoid=[br.bb]) for o in blocks if o != d):
+                continue
+            out.add(d)
+    return out
+
+
+def remote_stream_opened_only_within_limit(ctx, rule, instance):
+    """StreamsState::on_stream_frame raises next_remote (the application then sees `Opened` and accept() hands out the
+    ids) for a peer-initiated stream.  Every call of it must therefore be made for an id that is known to lie below the
+    advertised stream limit: the call is dominated by the Ok edge of validate_receive_id(id), or by a guard
+    `id.index() >= max_remote[dir]` whose violating edge returns STREAM_LIMIT_ERROR, or by the Some edge of a lookup of
+    that stream's state (entries exist only for streams within the limit).  Otherwise one frame naming a huge stream id
+    (MAX_STREAM_DATA did, on the pinned tree) opens every stream up to it.
+
+    (C06-local version of rules/shared_rules.remote_stream_opened_only_within_limit, same obligation.  Differences:
+    (a) accepts every test of validate_receive_id's Result (`?`, match, if-let, is_ok / is_err), not only a discr switch;
+    (b) the guard may sit in a new private helper whose verdict comes back as a Result and is propagated with `?`:
+    the blocks that build that Result as Err cannot continue over the Ok edge of its test (_err_built_blocks).)"""
+    F = ctx.facts
+    ctx.pfn('StreamsState::on_stream_frame')
+    n = 0
+    for c in F.callers_of('StreamsState::on_stream_frame', crate='quinn_proto'):
+        b = c.body
+        n += 1
+        ok = False
+        why = ''
+        # (a) validated id
+        for v in b.calls_to('StreamsState::validate_receive_id'):
+            for br in branches(F, b):
+                if br.desc[0] == 'discr' and contains_site(br.desc[1], v) and b.dominates(br.bb, c.bb) and c.bb not in b.reachable_from(br.target(1), avoid=[br.bb]):
+                    ok = True
+                    why = 'validate_receive_id(id)?'
+            for br, t_ok, t_err in _result_tests(F, b, v):
+                if t_err is not None and t_err != t_ok and b.dominates(br.bb, c.bb) and c.bb not in b.reachable_from(t_err, avoid=[br.bb]):
+                    ok = True
+                    why = 'validate_receive_id(id) tested, Ok edge only'
+        # (b) explicit limit guard: for a peer-initiated id (the `initiator != side` edges) every path to the call passes the
+        #     pass edge of `index >= max_remote -> STREAM_LIMIT_ERROR`
+        if not ok:
+            ges = guard_edges(ctx, b, lambda o, x, y: o == 'Le' and D.has_field(x, 'max_remote') and D.has_call(y, 'StreamId::index'))
+            if ges:
+                cut = set()
+                for br in branches(F, b):
+                    for truth in (True, False):
+                        rel = relation_on(br.desc, truth)
+                        # edge on which the stream is LOCALLY initiated: on_stream_frame cannot raise next_remote there
+                        if rel and rel[0] == 'Eq' and (D.has_call(rel[1], 'StreamId::initiator') or D.has_call(rel[2], 'StreamId::initiator')) and (D.has_field(rel[1], 'side') or D.has_field(rel[2], 'side')):
+                            cut.add((br.bb, br.target(1 if truth else 0)))
+                dead = _err_built_blocks(F, b, c.bb)
+                avoid = [br.bb for br, truth, tgt in ges] + sorted(dead)
+                reach = b.reachable_from(0, avoid=avoid, avoid_edges=cut)
+                viol_ok = all(c.bb not in b.reachable_from(tgt, avoid=[br.bb] + sorted(dead)) for br, truth, tgt in ges)
+                if c.bb not in reach and viol_ok:
+                    ok = True
+                    why = 'index >= max_remote guard on every path of a peer-initiated id'
+        # (c) the stream's state entry was found
+        if not ok:
+            for lk in b.calls():
+                if short(lk.f or '').split('::')[-1] in ('get_mut', 'get', 'entry') and (D.has_field(arg_desc(F, lk, 0), 'send') or D.has_field(arg_desc(F, lk, 0), 'recv')):
+                    for br in branches(F, b):
+                        if br.desc[0] == 'discr' and contains_site(br.desc[1], lk) and b.dominates(br.bb, c.bb) and br.target(0) is not None and c.bb not in b.reachable_from(br.target(0), avoid=[br.bb]):
+                            ok = True
+                            why = 'state entry found'
+        # local streams never raise next_remote
+        ctx.check(ok, rule, instance, F.root_of(b), c.where(), why,
+                  'on_stream_frame is reached for a stream id that was neither validated against the stream limit nor found in the stream table: a frame naming a peer-initiated stream beyond max_remote opens phantom streams')
+    ctx.floor(rule, instance + '_sites', n, 4)
+
+
 def run(ctx):
-    from rules.shared_rules import remote_stream_opened_only_within_limit
     remote_stream_opened_only_within_limit(ctx, 'a', 'remote_stream_opened_only_within_limit')
     rule_f(ctx)
     rule_a(ctx)
